@@ -147,7 +147,8 @@ def gen_case(rng, stream):
         kind = rng.choice(["none", "meta-charset", "meta-content", "xml"])
         name, _ = pick_name(rng, "utf-8")
         c.update(markup_str=make_declaration(rng, kind, name) + "<p>" + text + "</p>" if rng.random() < 0.8 else text,
-                 is_html=rng.random() < 0.7, known=[pick_name(rng, "utf-8")[0]] if rng.random() < 0.5 else [], user=[], exclude=[], override=[])
+                 is_html=rng.random() < 0.7, known=[pick_name(rng, "utf-8")[0]] if rng.random() < 0.5 else [],
+                 user=[pick_name(rng, "utf-8")[0]] if rng.random() < 0.3 else [], exclude=[rng.choice(["utf-8", "UTF-8", "windows-1252", "koi8-r"])] if rng.random() < 0.3 else [], override=[])
         return c
     tkey = rng.choice(list(TEXTS))
     codec = rng.choice(CODECS) if rng.random() < 0.8 else rng.choice(["utf-8", "windows-1252", "latin-1", "utf-16-le", "shift_jis"])
@@ -207,6 +208,9 @@ def gen_case(rng, stream):
         user.append(rng.choice([known[0], known[0].upper(), known[0].swapcase()]))
     override = [pick_name(rng, codec)[0]] if rng.random() < 0.05 else []
     soup = is_html and not user and not override and len(known) <= 1 and len(markup) < 5000
+    if rng.random() < 0.12:
+        c["chardet"] = pick_name(rng, codec)[0] if rng.random() < 0.85 else rng.choice(["", "UTF-8", "Windows-1252", "ascii"])
+    c["builder"] = is_html and not override and len(known) <= 1 and len(user) <= 1 and len(markup) < 5000
     c.update(markup_hex=markup.hex(), is_html=is_html, known=known, user=user, exclude=exclude, override=override, soup=soup,
              text=tkey, codec=codec, bom=bom, decl=kind, declname=dname, declclass=dclass)
     if have_truth:
@@ -260,10 +264,10 @@ def _decode(data, name, errors):
         return None
 
 
-def oracle_candidates(known, bomname, user, declared, exclude):
+def oracle_candidates(known, bomname, user, declared, exclude, chardet=None):
     ex = {e.lower() for e in exclude}
     seen, out = set(), []
-    for e in list(known) + ([bomname] if bomname else []) + list(user) + ([declared] if declared else []) + ["utf-8", "windows-1252"]:
+    for e in list(known) + ([bomname] if bomname else []) + list(user) + ([declared] if declared else []) + ([chardet] if chardet is not None else []) + ["utf-8", "windows-1252"]:
         k = e.lower()
         if k in ex or k in seen:
             continue
@@ -272,7 +276,7 @@ def oracle_candidates(known, bomname, user, declared, exclude):
     return out
 
 
-def oracle(markup, known, user, exclude, is_html, declared_of):
+def oracle(markup, known, user, exclude, is_html, declared_of, chardet=None):
     """Expected (text, original_encoding, declared_html_encoding, contains_replacement, candidates, winner index / pass)."""
     if isinstance(markup, str):
         return dict(text=markup, enc=None, decl=None, repl=False, cands=None, how="str")
@@ -280,8 +284,8 @@ def oracle(markup, known, user, exclude, is_html, declared_of):
     declared = declared_of(data)
     decl_html = declared if is_html else None
     if markup == b"":
-        return dict(text="", enc=None, decl=decl_html, repl=False, cands=oracle_candidates(known, bomname, user, declared, exclude), how="empty")
-    cands = oracle_candidates(known, bomname, user, declared, exclude)
+        return dict(text="", enc=None, decl=decl_html, repl=False, cands=oracle_candidates(known, bomname, user, declared, exclude, chardet), how="empty")
+    cands = oracle_candidates(known, bomname, user, declared, exclude, chardet)
     for i, c in enumerate(cands):
         r = oracle_resolve(c)
         if r is None:
@@ -326,6 +330,19 @@ def p_text(t) -> str:
     return ",".join(str(ord(ch)) for ch in t) if t else "-"
 
 
+LAW = Counter()   # per-process tally of the codec laws (`Lawful` of the Lean model) tested on real data
+
+
+def test_laws(data: bytes, names):
+    """The hypotheses of the totality theorems, tested on the real codecs with this case's data."""
+    for n in names:
+        if n:
+            LAW["law:lookup-ignores-case:" + ("ok" if _exists(n) == _exists(n.lower()) else "BROKEN")] += 1
+    for n in ("utf-8", "windows-1252"):
+        LAW[f"law:{n}-exists:" + ("ok" if _exists(n) else "BROKEN")] += 1
+        LAW[f"law:{n}-replace-total:" + ("ok" if _decode(data, n, "replace") is not None else "BROKEN")] += 1
+
+
 def codec_table(data: bytes, names):
     """exists / strict / replace for every name the model can ask about, for this case's BOM-stripped data."""
     from bs4.dammit import UnicodeDammit
@@ -350,6 +367,7 @@ def codec_table(data: bytes, names):
         if n == "":
             continue
         entries.append(f"{p_name(n)}|{1 if _exists(n) else 0}|{idx(_decode(data, n, 'strict'))}|{idx(_decode(data, n, 'replace'))}")
+    test_laws(data, sorted(need))
     tab = ";".join(entries) if entries else "-"
     txt = ";".join(p_name(t) for t in texts) if texts else "-"
     return tab, txt
@@ -385,13 +403,38 @@ def case_markup(c):
     return c["markup_str"] if "markup_str" in c else bytes.fromhex(c["markup_hex"])
 
 
+class _FakeChardet:
+    """Stand-in for chardet / cchardet / charset_normalizer: `detect(bytes)["encoding"]` is the case's `chardet` name.
+    Installed as bs4.dammit.chardet_module for the duration of a call, so the real `_chardet_dammit` runs."""
+    def __init__(self, name):
+        self.name = name
+
+    def detect(self, s):
+        assert isinstance(s, (bytes, bytearray)), "chardet consulted for a str"
+        return {"encoding": self.name, "confidence": 0.5}
+
+
+class chardet_as:
+    def __init__(self, c):
+        self.name = c.get("chardet")
+
+    def __enter__(self):
+        import bs4.dammit as bd
+        self.saved = bd.chardet_module
+        bd.chardet_module = _FakeChardet(self.name) if self.name is not None else None
+
+    def __exit__(self, *a):
+        import bs4.dammit as bd
+        bd.chardet_module = self.saved
+
+
 def real_dammit(c):
     from bs4.dammit import UnicodeDammit
     m = case_markup(c)
     kw = {}
     if c.get("override"):
         kw["override_encodings"] = list(c["override"])
-    with warnings.catch_warnings():
+    with warnings.catch_warnings(), chardet_as(c):
         warnings.simplefilter("ignore")
         d = UnicodeDammit(m, known_definite_encodings=list(c["known"]), is_html=c["is_html"], exclude_encodings=list(c["exclude"]),
                           user_encodings=list(c["user"]), **kw)
@@ -405,7 +448,7 @@ def real_detector(c):
     kw = {}
     if c.get("override"):
         kw["override_encodings"] = list(c["override"])
-    with warnings.catch_warnings():
+    with warnings.catch_warnings(), chardet_as(c):
         warnings.simplefilter("ignore")
         det = EncodingDetector(m, known_definite_encodings=list(c["known"]), is_html=c["is_html"], exclude_encodings=list(c["exclude"]),
                                user_encodings=list(c["user"]), **kw)
@@ -419,13 +462,32 @@ def real_soup(c):
     m = case_markup(c)
     fe = c["known"][0] if c["known"] else None
     del _FED[:]
-    with warnings.catch_warnings():
+    with warnings.catch_warnings(), chardet_as(c):
         warnings.simplefilter("ignore")
         try:
             s = BeautifulSoup(m, "html.parser", from_encoding=fe, exclude_encodings=list(c["exclude"]) or None)
         except ParserRejectedMarkup:
             return "rejected"
     return dict(text=_FED[-1] if _FED else None, enc=s.original_encoding, decl=s.declared_html_encoding, repl=s.contains_replacement_characters)
+
+
+def real_prepare(c):
+    """HTMLParserTreeBuilder.prepare_markup called directly, with the case's single user encoding as document_declared_encoding."""
+    from bs4.builder._htmlparser import HTMLParserTreeBuilder
+    from bs4.exceptions import ParserRejectedMarkup
+    m = case_markup(c)
+    fe = c["known"][0] if c["known"] else None
+    dd = c["user"][0] if c["user"] else None
+    with warnings.catch_warnings(), chardet_as(c):
+        warnings.simplefilter("ignore")
+        try:
+            out = list(HTMLParserTreeBuilder().prepare_markup(m, fe, dd, exclude_encodings=list(c["exclude"]) or None))
+        except ParserRejectedMarkup:
+            return "rejected"
+    if len(out) != 1:
+        return {"text": None, "enc": f"{len(out)} strategies", "decl": None, "repl": False}
+    t, e, d, r = out[0]
+    return dict(text=t, enc=e, decl=d, repl=r)
 
 
 def fmt_res(r):
@@ -459,7 +521,8 @@ def eval_case(c):
             return c["truth_declared"]
         return EncodingDetector.find_declared_encoding(data, is_html)
 
-    o = oracle(m, known_all, c["user"], c["exclude"], is_html, declared_of)
+    ch = c.get("chardet") if isinstance(m, bytes) else None
+    o = oracle(m, known_all, c["user"], c["exclude"], is_html, declared_of, ch)
     rd = real_dammit(c)
     for field in ("text", "enc", "repl", "decl"):
         if rd[field] != o[field]:
@@ -483,9 +546,9 @@ def eval_case(c):
         # the model: same request through code-mirror and spec
         real_decl = EncodingDetector.find_declared_encoding(stripped, is_html)
         light = bool(c.get("light"))   # long documents: only the byte-level ops go to the model (no codec table / decoded texts)
-        names = known_all + list(c["user"]) + BOM_NAMES + ["utf-8", "windows-1252", real_decl, c.get("truth_declared")]
+        names = known_all + list(c["user"]) + BOM_NAMES + ["utf-8", "windows-1252", real_decl, c.get("truth_declared"), ch]
         tab, txt = ("-", "-") if light else codec_table(stripped, names)
-        args = f"{1 if is_html else 0} {p_names(c['known'])} {p_names(c.get('override') or [])} {p_names(c['user'])} {p_names(c['exclude'])}"
+        args = f"{1 if is_html else 0} {p_names(c['known'])} {p_names(c.get('override') or [])} {p_names(c['user'])} {p_names(c['exclude'])} {p_opt(ch)}"
         mb = "b:" + (",".join(map(str, m)))
         lines.append(f"c07 dammit {mb} {args} {p_bytes(stripped)} {tab} {txt}")
         expect.append(fmt_res(rd) if not light else None)
@@ -511,18 +574,32 @@ def eval_case(c):
         if c.get("soup"):
             rs = real_soup(c)
             fe = c["known"][0] if c["known"] else None
-            os_ = oracle(m, [fe] if fe else [], [], c["exclude"], True, declared_of)
+            os_ = oracle(m, [fe] if fe else [], [], c["exclude"], True, declared_of, ch)
             want = "rejected" if os_["text"] is None else {k: os_[k] for k in ("text", "enc", "decl", "repl")}
             if rs != want:
                 viol.append(dict(what="BeautifulSoup constructor: decoded text / original_encoding / declared_html_encoding / contains_replacement_characters differ from the property statement",
                                  expected=short(want), observed=short(rs), stream=c["stream"] + "/soup"))
-            lines.append(f"c07 prepare {mb} {p_opt(fe)} {p_names(c['exclude'])} {p_bytes(stripped)} {tab} {txt}")
+            lines.append(f"c07 prepare {mb} {p_opt(fe)} none {p_names(c['exclude'])} {p_opt(ch)} {p_bytes(stripped)} {tab} {txt}")
             expect.append((("ok " + fmt_res(rs)) if rs != "rejected" else "rejected") if not light else None)
             tags.append("prepare")
+        if c.get("builder"):
+            # prepare_markup itself, with a document_declared_encoding (the builder API; the constructor never passes one)
+            rp = real_prepare(c)
+            fe = c["known"][0] if c["known"] else None
+            dd = c["user"][0] if c["user"] else None
+            op_ = oracle(m, [fe] if fe else [], [dd] if dd else [], c["exclude"], True, declared_of, ch)
+            want = "rejected" if op_["text"] is None else {k: op_[k] for k in ("text", "enc", "decl", "repl")}
+            if rp != want:
+                viol.append(dict(what="HTMLParserTreeBuilder.prepare_markup(markup, user_specified_encoding, document_declared_encoding, exclude_encodings) differs "
+                                      "from the property statement (user_specified = known definite, document_declared = user encoding)",
+                                 expected=short(want), observed=short(rp), stream=c["stream"] + "/builder"))
+            lines.append(f"c07 prepare {mb} {p_opt(fe)} {p_opt(dd)} {p_names(c['exclude'])} {p_opt(ch)} {p_bytes(stripped)} {tab} {txt}")
+            expect.append((("ok " + fmt_res(rp)) if rp != "rejected" else "rejected") if not light else None)
+            tags.append("prepare-builder")
     else:
         # str input: pass-through
         ms = "s:" + ",".join(str(ord(ch)) for ch in m)
-        args = f"{1 if is_html else 0} {p_names(c['known'])} - - -"
+        args = f"{1 if is_html else 0} {p_names(c['known'])} - - - none"
         lines.append(f"c07 dammit {ms} {args} - - -")
         expect.append(fmt_res(rd))
         tags.append("dammit-str")
@@ -531,9 +608,23 @@ def eval_case(c):
         if rs != want:
             viol.append(dict(what="BeautifulSoup constructor: str markup is not passed through untouched", expected=short(want), observed=short(rs),
                              stream=c["stream"] + "/soup"))
-        lines.append(f"c07 prepare {ms} {p_opt(c['known'][0] if c['known'] else None)} - - - -")
+        lines.append(f"c07 prepare {ms} {p_opt(c['known'][0] if c['known'] else None)} none - none - - -")
         expect.append("ok " + fmt_res(rs))
         tags.append("prepare-str")
+        # EncodingDetector on a str: no BOM, str flavour of the declaration patterns, chardet not consulted
+        from bs4.dammit import EncodingDetector as ED
+        with chardet_as({"chardet": "x-must-not-be-consulted"}):
+            try:
+                encs = list(ED(m, known_definite_encodings=list(c["known"]), is_html=is_html, exclude_encodings=list(c["exclude"]), user_encodings=list(c["user"])).encodings)
+            except AssertionError:
+                encs = ["<chardet consulted for a str>"]
+        want_e = oracle_candidates(c["known"], None, c["user"], ED.find_declared_encoding(m, is_html), c["exclude"])
+        if encs != want_e:
+            viol.append(dict(what="EncodingDetector(str).encodings differs from the documented candidate list", expected=want_e, observed=encs, stream=c["stream"] + "/detector-str"))
+        if all(ch_.lower() == "".join(chr(lo) for lo in [ord(x) + 32 if "A" <= x <= "Z" else ord(x) for x in ch_]) for ch_ in m):
+            lines.append(f"c07 encodingsstr {p_text(m) if m else '-'} {1 if is_html else 0} {p_names(c['known'])} - {p_names(c['user'])} {p_names(c['exclude'])}")
+            expect.append(p_names(encs))
+            tags.append("encodings-str")
     return viol, lines, expect, tags, o
 
 
@@ -546,6 +637,7 @@ def classify(c, o):
         if o.get("winner") is not None:
             sniffed = oracle_bom(bytes.fromhex(c["markup_hex"]))[1]
             srcs = ([("known", e) for e in c["known"] + (c.get("override") or [])] + ([("bom", sniffed)] if sniffed else []) + [("user", e) for e in c["user"]]
+                    + ([("chardet", c["chardet"])] if c.get("chardet") is not None and o.get("winner") == c.get("chardet") and not (o.get("cands") and c.get("truth_declared") == o.get("winner")) else [])
                     + [("fallback-utf8", "utf-8"), ("fallback-1252", "windows-1252")])
             src = next((s for s, e in srcs if e == o["winner"]), "declared")
             keys.append("winner:" + src)
@@ -602,6 +694,8 @@ def work(job):
         dist["model:" + t] += 1
         if e != r:
             dis.append(dict(case=c, op=t, real=e[:600], model=r[:600], line=l if len(l) < 4000 else l[:4000] + "...", had_violation=hadv))
+    dist.update(LAW)
+    LAW.clear()
     return dict(dist=dist, viols=viols, nontriv=nontriv, samples=samples, dis=dis, n=ncases)
 
 
@@ -687,6 +781,8 @@ def work_fixed(job):
         dist["model:" + t] += 1
         if e != r:
             dis.append(dict(case=c, op=t, real=e[:600], model=r[:600], line=l[:4000], had_violation=hadv))
+    dist.update(LAW)
+    LAW.clear()
     return dict(dist=dist, viols=viols, nontriv=nontriv, samples=[], dis=dis, n=len(cases))
 
 
@@ -1130,6 +1226,9 @@ def run(ctx: Ctx):
                 continue
             ctx.violation(f"model and implementation disagree ({d['op']})", case=d["case"] | {"op": d["op"], "line": d["line"]}, observed=d["real"],
                           model=d["model"], stream=d["case"].get("stream", "") + "/model", no_failing_input=True)
+    broken = {k: v for k, v in ctx.dist.items() if k.startswith("law:") and k.endswith("BROKEN")}
+    if broken:
+        ctx.notes.append(f"codec laws assumed by the totality theorems (Lawful) do NOT hold for the installed codecs on some case: {broken}")
     # the two small exhaustive / regex-only streams, in this process
     drv = Driver()
     lines, expect, cases, hits = declared_stream(ctx.seed, ctx.n(20000, 200000))
